@@ -14,6 +14,9 @@
 -/
 import YtkProofs.Analytics
 import YtkProofs.FuncsLemmas
+import YtkProofs.GapAnalytics
+import YtkProofs.GapAnalyticsResolve
+import YtkProofs.GapAnalyticsNofix
 
 namespace Ytk.C19
 open Ytk.Analytics
@@ -120,24 +123,39 @@ theorem partition (merged : Flat) (docs : List Doc) :
     rw [hk'.2] at hk
     exact absurd hk.2 (by simp)
 
-/-- FailedKeys == sorted{k | filter k, value(k) has a placeholder and Resolve(value) == value}.
-    Hypothesis `hk`: no key of the merged document is itself the text of a placeholder-bearing
-    value — the code tests `slices.Contains(failedKeys, ph)` with the VALUE, which can only
-    matter for such a key (never for path-safe keys: they contain no `${`). -/
-theorem failedKeys_exact_sorted (hasPh : String → Bool) (resolve : String → String) (merged : Flat) (doc : Doc)
-    (hk : ∀ kv ∈ merged, ∀ v : Scalar, hasPh v.text = true → kv.1 ≠ v.text) :
+/-- FailedKeys == sorted{k | filter k, value(k) has a placeholder and Resolve(value) == value} — for EVERY
+    merged key/value list, with no hypothesis (since the D32 repair, /repo f8018cb, the code tests
+    `slices.Contains(failedKeys, k)` with the KEY): a key is reported iff one of its entries passes the
+    filter, has a placeholder-bearing value and is left unchanged by resolution; the list is sorted and
+    duplicate-free.  (Before the repair this needed the hypothesis that no key is the text of a
+    placeholder-bearing value: `failedKeys_nofix_exact_sorted_partial`, `failedKeys_nofix_counterexample`.) -/
+theorem failedKeys_exact_sorted (hasPh : String → Bool) (resolve : String → String) (merged : Flat) (doc : Doc) :
     let r := placeholderReport hasPh filter resolve merged doc
-    r.failedKeys = sortStrings ((merged.filter fun kv =>
-        filter kv.1 && hasPh kv.2.text && (kv.2.text == resolve kv.2.text)).map (·.1)) ∧
-      r.failedKeys.Pairwise (· ≤ ·) := by
-  refine ⟨?_, sortStrings_pairwise _⟩
+    (∀ k, k ∈ r.failedKeys ↔
+        ∃ v, (k, v) ∈ merged ∧ filter k = true ∧ hasPh v.text = true ∧ v.text = resolve v.text) ∧
+      r.failedKeys.Pairwise (· ≤ ·) ∧ r.failedKeys.Nodup := by
+  refine ⟨?_, sortStrings_pairwise _, ?_⟩
+  · intro k
+    simp only [placeholderReport]
+    rw [mem_sortStrings, phLoop_failedKeys_mem]
+    simp only [List.not_mem_nil, false_or, Bool.and_eq_true, beq_iff_eq]
+    constructor
+    · rintro ⟨⟨k', v⟩, hm, rfl, ⟨h1, h2⟩, h3⟩
+      exact ⟨v, hm, h1, h2, h3⟩
+    · rintro ⟨v, hm, h1, h2, h3⟩
+      exact ⟨(k, v), hm, rfl, ⟨h1, h2⟩, h3⟩
+  · simp only [placeholderReport]
+    exact (sortStrings_perm _).nodup_iff.mpr
+      (phLoop_failedKeys_nodup hasPh filter resolve doc merged ⟨[], []⟩ List.nodup_nil)
+
+/-- … as a list: for the flattening of a Go map (pairwise distinct keys) the failed keys are the sorted
+    keys of the failing entries -/
+theorem failedKeys_exact_list (hasPh : String → Bool) (resolve : String → String) (merged : Flat) (doc : Doc)
+    (hnd : (merged.map (·.1)).Nodup) :
+    (placeholderReport hasPh filter resolve merged doc).failedKeys = sortStrings ((merged.filter fun kv =>
+        filter kv.1 && hasPh kv.2.text && (kv.2.text == resolve kv.2.text)).map (·.1)) := by
   simp only [placeholderReport]
-  rw [phLoop_failedKeys hasPh filter resolve doc (merged.map (·.1))
-    (by
-      intro k hkm v hv
-      obtain ⟨kv, hkv, rfl⟩ := List.mem_map.mp hkm
-      exact hk kv hkv v hv)
-    merged ⟨[], []⟩ (fun kv h => List.mem_map.mpr ⟨kv, h, rfl⟩) (by simp)]
+  rw [phLoop_failedKeys_list hasPh filter resolve doc merged ⟨[], []⟩ hnd (by simp)]
   simp
 
 /-- ImpactAnalysis result == {k ↦ mentions(k)} for the requested k with mentions; one entry per key. -/
@@ -195,14 +213,17 @@ theorem report_order_indep (merged merged' : Flat) (docs docs' : List Doc)
 /-- … and the same for the placeholder report and impact analysis (FailedKeys is a sorted
     function of the key/value SET; the impact entry of a key is `Search` of the document). -/
 theorem failedKeys_order_indep (hasPh : String → Bool) (resolve : String → String) (merged merged' : Flat)
-    (doc doc' : Doc) (hm : merged'.Perm merged)
-    (hk : ∀ kv ∈ merged, ∀ v : Scalar, hasPh v.text = true → kv.1 ≠ v.text) :
+    (doc doc' : Doc) (hm : merged'.Perm merged) :
     (placeholderReport hasPh filter resolve merged' doc').failedKeys =
       (placeholderReport hasPh filter resolve merged doc).failedKeys := by
-  rw [(failedKeys_exact_sorted filter hasPh resolve merged' doc'
-      (fun kv h => hk kv (hm.mem_iff.mp h))).1,
-    (failedKeys_exact_sorted filter hasPh resolve merged doc hk).1]
-  exact sortStrings_eq_of_perm ((hm.filter _).map _)
+  obtain ⟨m1, s1, n1⟩ := failedKeys_exact_sorted filter hasPh resolve merged' doc'
+  obtain ⟨m2, s2, n2⟩ := failedKeys_exact_sorted filter hasPh resolve merged doc
+  apply eq_of_sorted_nodup_mem s1 n1 s2 n2
+  intro k
+  rw [m1 k, m2 k]
+  constructor
+  · rintro ⟨v, h, r⟩; exact ⟨v, hm.mem_iff.mp h, r⟩
+  · rintro ⟨v, h, r⟩; exact ⟨v, hm.mem_iff.mpr h, r⟩
 
 theorem impact_order_indep (doc doc' : Doc) (hd : DocPerm doc' doc) (keys : List String) (k : String)
     (c' : List Coord) (h : (k, c') ∈ impact mentions doc' keys) :
@@ -254,6 +275,172 @@ theorem nonvacuous_failed :
   have : possiblyContainsPlaceholder kv.1 = true := he ▸ hv
   simp only [exMerged, List.mem_cons, List.not_mem_nil, or_false] at hkv
   rcases hkv with rfl | rfl | rfl <;> exact absurd this (by decide)
+
+/-! ## Round 8: D32 — the PRE-FIX shape of the report loop (YtkModel/GapAnalyticsNofix.lean); the matchers
+     characterised -/
+
+/-- two merged entries, visited in this order: the KEY of the first is the VALUE text of the second -/
+def cexMerged : Flat := [("${x}", ⟨"string", "${y}"⟩), ("k2", ⟨"string", "${x}"⟩)]
+
+/-- D32 (found by this audit, confirmed on the real code, repaired by /repo f8018cb).  Before the repair
+    `placeholderResolver.Resolve` tested `slices.Contains(failedKeys, ph)` with the VALUE text `ph`
+    although `failedKeys` holds KEYS (`placeholderReportNofix`).  Witness (default matcher, filter = all,
+    nothing resolves): the entry `"${x}" ↦ "${y}"` fails and puts the key `${x}` into failedKeys; the entry
+    `k2 ↦ "${x}"` has a placeholder, is unchanged by resolution, but its value text `${x}` is now
+    "contained", so `k2` is NOT reported: the pre-fix report is `["${x}"]` — and `["${x}", "k2"]` when
+    Go's map iteration yields the entries in the other order (so the report depended on the iteration
+    order: 61 / 139 of 200 runs of the real code).  The code at HEAD (`placeholderReport`) reports
+    `["${x}", "k2"]` in both orders, as `failedKeys_exact_sorted` / `failedKeys_order_indep` say. -/
+theorem failedKeys_nofix_counterexample :
+    (placeholderReportNofix possiblyContainsPlaceholder (fun _ => true) id cexMerged []).failedKeys = ["${x}"] ∧
+    (placeholderReportNofix possiblyContainsPlaceholder (fun _ => true) id cexMerged.reverse []).failedKeys =
+      ["${x}", "k2"] ∧
+    (placeholderReport possiblyContainsPlaceholder (fun _ => true) id cexMerged []).failedKeys = ["${x}", "k2"] ∧
+    (placeholderReport possiblyContainsPlaceholder (fun _ => true) id cexMerged.reverse []).failedKeys =
+      ["${x}", "k2"] ∧
+    ¬ (∀ kv ∈ cexMerged, ∀ v : Scalar, possiblyContainsPlaceholder v.text = true → kv.1 ≠ v.text) := by
+  refine ⟨?_, ?_, ?_, ?_, ?_⟩
+  · show sortStrings _ = _
+    rw [show (phLoopNofix possiblyContainsPlaceholder (fun _ => true) id [] cexMerged ⟨[], []⟩).failedKeys =
+      ["${x}"] by decide]
+    exact sortStrings_of_sorted (by decide)
+  · show sortStrings _ = _
+    rw [show (phLoopNofix possiblyContainsPlaceholder (fun _ => true) id [] cexMerged.reverse ⟨[], []⟩).failedKeys =
+      ["k2", "${x}"] by decide]
+    rw [sortStrings_eq_of_perm (List.Perm.swap "${x}" "k2" [])]
+    exact sortStrings_of_sorted (by decide)
+  · show sortStrings _ = _
+    rw [show (phLoop possiblyContainsPlaceholder (fun _ => true) id [] cexMerged ⟨[], []⟩).failedKeys =
+      ["${x}", "k2"] by decide]
+    exact sortStrings_of_sorted (by decide)
+  · show sortStrings _ = _
+    rw [show (phLoop possiblyContainsPlaceholder (fun _ => true) id [] cexMerged.reverse ⟨[], []⟩).failedKeys =
+      ["k2", "${x}"] by decide]
+    rw [sortStrings_eq_of_perm (List.Perm.swap "${x}" "k2" [])]
+    exact sortStrings_of_sorted (by decide)
+  · intro h
+    exact h ("${x}", ⟨"string", "${y}"⟩) (by decide) ⟨"string", "${x}"⟩ (by decide) rfl
+
+/-- what WAS provable of the pre-fix shape: the clause under the hypothesis `hk` — no key of the merged
+    document is itself the text of a placeholder-bearing value (the former `failedKeys_exact_sorted`) -/
+theorem failedKeys_nofix_exact_sorted_partial (hasPh : String → Bool) (resolve : String → String) (merged : Flat)
+    (doc : Doc) (hk : ∀ kv ∈ merged, ∀ v : Scalar, hasPh v.text = true → kv.1 ≠ v.text) :
+    (placeholderReportNofix hasPh filter resolve merged doc).failedKeys = sortStrings ((merged.filter fun kv =>
+        filter kv.1 && hasPh kv.2.text && (kv.2.text == resolve kv.2.text)).map (·.1)) := by
+  simp only [placeholderReportNofix]
+  rw [phLoopNofix_failedKeys hasPh filter resolve doc (merged.map (·.1))
+    (by
+      intro k hkm v hv
+      obtain ⟨kv, hkv, rfl⟩ := List.mem_map.mp hkm
+      exact hk kv hkv v hv)
+    merged ⟨[], []⟩ (fun kv h => List.mem_map.mpr ⟨kv, h, rfl⟩) (by simp)]
+  simp
+
+/-- `hasPlaceholderFunc(k)(v)` characterised for ALL keys and values: `v` is a string that
+    contains `${k}` somewhere, or starts with `${k:` and ends with `}` (core's infix `<:+:`,
+    prefix `<+:`, suffix `<:+` on the character lists). -/
+theorem hasPlaceholder_iff (k : String) (v : Scalar) :
+    hasPlaceholder k v = true ↔
+      v.ty = "string" ∧
+        ((("${".toList ++ k.toList ++ "}".toList) <:+: v.text.toList) ∨
+          ((("${".toList ++ k.toList ++ ":".toList) <+: v.text.toList) ∧ ("}".toList <:+ v.text.toList))) := by
+  simp only [hasPlaceholder, Bool.and_eq_true, Bool.or_eq_true, beq_iff_eq, containsSub_iff, isPrefixOf_iff,
+    isSuffixOf_iff]
+
+/-- `possiblyContainsPlaceholder(s)` characterised for ALL strings: some occurrence of `${` is
+    followed (anywhere behind it) by a `}`.  (The code looks behind the FIRST `${` only; that is
+    the same, because the text behind a later occurrence is part of the text behind the first.) -/
+theorem possiblyContainsPlaceholder_iff (s : String) :
+    possiblyContainsPlaceholder s = true ↔ ∃ a b, s.toList = a ++ "${".toList ++ b ∧ '}' ∈ b :=
+  Analytics.possiblyContainsPlaceholder_iff s
+
+/-! ## Round 7b: composition with C11 — the report over the REAL resolver model
+
+  `resolveOr merged` (YtkModel/GapAnalyticsResolve.lean) is what the driver passes for the
+  `resolve` parameter: the C11 model `Resolver.resolveTop (relex d) 400` with the default
+  delimiters `${ } :` over the lexed (key, value text) table of the merged document; a run that is
+  circular or out of fuel leaves the text unchanged (the driver reports "panic" for such inputs
+  before it builds the report). -/
+
+/-- FailedKeys over the C11 resolver, key by key: `k` is reported iff the merged document has an
+    entry `(k, v)` passing the filter whose text possibly contains a placeholder and which the C11
+    model does NOT resolve to a different text — every token list the run ends with renders to the
+    text itself (this includes runs that do not end: circular, out of fuel).  No hypothesis on the keys
+    (D32 repaired; pre-fix shape: `failedKeys_nofix_resolver_counterexample`). -/
+theorem placeholderReport_agrees_resolver (merged : Flat) (doc : Doc) (k : String) :
+    k ∈ (placeholderReport possiblyContainsPlaceholder filter (resolveOr merged) merged doc).failedKeys ↔
+      ∃ v, (k, v) ∈ merged ∧ filter k = true ∧ possiblyContainsPlaceholder v.text = true ∧
+        ∀ t, Resolver.resolveTop (Resolver.relex defaultDelims) 400 (mergedTable merged)
+            (Resolver.lex defaultDelims v.text.toList) = .ok t →
+          Resolver.unlex defaultDelims t = v.text.toList := by
+  rw [(failedKeys_exact_sorted filter possiblyContainsPlaceholder (resolveOr merged) merged doc).1 k]
+  constructor
+  · rintro ⟨v, hm, hf, hp, he⟩
+    exact ⟨v, hm, hf, hp, (resolveOr_fix_iff merged v.text).mp (by simpa using he)⟩
+  · rintro ⟨v, hm, hf, hp, hr⟩
+    exact ⟨v, hm, hf, hp, by simpa using (resolveOr_fix_iff merged v.text).mpr hr⟩
+
+/-- A value that is exactly ONE placeholder `${u}` whose key `u` is plain (no `$`, `}`, `:`) and
+    is no key of the merged document IS a failed key (for every such document; by the C11 theorems
+    `resolve_one`, `resolve_noPre`, `resolvePlaceholder_none` and `unlex_lex`: the placeholder is
+    unresolvable and stays verbatim). -/
+theorem unresolvable_placeholder_is_failed (merged : Flat) (doc : Doc)
+    (k : String) (v : Scalar) (u : List Char) (hm : (k, v) ∈ merged) (hf : filter k = true)
+    (hv : v.text.toList = "${".toList ++ u ++ "}".toList) (hu : PlainKey u)
+    (hnk : ∀ kv ∈ merged, kv.1.toList ≠ u) :
+    k ∈ (placeholderReport possiblyContainsPlaceholder filter (resolveOr merged) merged doc).failedKeys := by
+  rw [placeholderReport_agrees_resolver filter merged doc]
+  refine ⟨v, hm, hf, ?_, ?_⟩
+  · rw [possiblyContainsPlaceholder_iff]
+    exact ⟨[], u ++ "}".toList, by simpa using hv, by simp⟩
+  · intro t ht
+    rw [hv, resolveTop_single_unresolvable merged hu hnk 398] at ht
+    cases ht
+    rw [hv]
+    exact Resolver.unlex_lex' _ _
+
+/-- four merged entries: `a` resolvable through `b` (to a different text), `b` one unresolvable
+    placeholder, `c` default-bearing, `d` no string -/
+def rMerged : Flat :=
+  [("a", ⟨"string", "x-${b}"⟩), ("b", ⟨"string", "${zz}"⟩), ("c", ⟨"string", "${zz:dflt}"⟩), ("d", ⟨"int", "3"⟩)]
+
+/-- key-by-key agreement on a concrete document: `hk` holds, the C11 model resolves the four
+    values as listed, and exactly `b` is reported; `b` also meets the hypotheses of
+    `unresolvable_placeholder_is_failed` (`u = zz`). -/
+theorem nonvacuous_agrees_resolver :
+    (∀ kv ∈ rMerged, ∀ v : Scalar, possiblyContainsPlaceholder v.text = true → kv.1 ≠ v.text) ∧
+    (rMerged.map fun kv => resolveOr rMerged kv.2.text) = ["x-${zz}", "${zz}", "dflt", "3"] ∧
+    (placeholderReport possiblyContainsPlaceholder (fun _ => true) (resolveOr rMerged) rMerged []).failedKeys = ["b"] ∧
+    (PlainKey "zz".toList ∧ (∀ kv ∈ rMerged, kv.1.toList ≠ "zz".toList) ∧
+      "${zz}".toList = "${".toList ++ "zz".toList ++ "}".toList) := by
+  refine ⟨?_, by decide +kernel, ?_, by decide +kernel, by decide +kernel, by decide +kernel⟩
+  · intro kv hkv v hv he
+    have : possiblyContainsPlaceholder kv.1 = true := he ▸ hv
+    simp only [rMerged, List.mem_cons, List.not_mem_nil, or_false] at hkv
+    rcases hkv with rfl | rfl | rfl | rfl <;> exact absurd this (by decide)
+  · show sortStrings _ = _
+    rw [show (phLoop possiblyContainsPlaceholder (fun _ => true) (resolveOr rMerged) [] rMerged ⟨[], []⟩).failedKeys =
+      ["b"] by decide +kernel]
+    exact sortStrings_of_sorted (by decide)
+
+/-- `failedKeys_nofix_counterexample` with the REAL resolver model instead of `id`: neither `${y}` nor
+    `${x}` resolves over `cexMerged`; the pre-fix report is `["${x}"]` (`k2` missing), the report of the
+    code at HEAD `["${x}", "k2"]`. -/
+theorem failedKeys_nofix_resolver_counterexample :
+    (placeholderReportNofix possiblyContainsPlaceholder (fun _ => true) (resolveOr cexMerged) cexMerged []).failedKeys =
+        ["${x}"] ∧
+    (placeholderReport possiblyContainsPlaceholder (fun _ => true) (resolveOr cexMerged) cexMerged []).failedKeys =
+        ["${x}", "k2"] ∧
+      (cexMerged.map fun kv => resolveOr cexMerged kv.2.text) = ["${y}", "${x}"] := by
+  refine ⟨?_, ?_, by decide +kernel⟩
+  · show sortStrings _ = _
+    rw [show (phLoopNofix possiblyContainsPlaceholder (fun _ => true) (resolveOr cexMerged) [] cexMerged ⟨[], []⟩).failedKeys =
+      ["${x}"] by decide +kernel]
+    exact sortStrings_of_sorted (by decide)
+  · show sortStrings _ = _
+    rw [show (phLoop possiblyContainsPlaceholder (fun _ => true) (resolveOr cexMerged) [] cexMerged ⟨[], []⟩).failedKeys =
+      ["${x}", "k2"] by decide +kernel]
+    exact sortStrings_of_sorted (by decide)
 
 end Ytk.C19
 
